@@ -645,13 +645,40 @@ def main():
         d1, d2 = {"pattern": {k1: "?y"}}, {"pattern": {k2: "?x"}}
         cond = {"and": [{"or": [d1, d2] if r.random() < 0.7 else [d2, d1]}, term]}
         ta = {"t": "lit", "v": 1}
-        ops += [{"op": "addRule", "loc": "a", "id": "rpf", "rule": {"when": {"pattern": {"go": "?g"}}, "condition": cond, "action": {"code": lochist.js_of_tmpl(ta), "verif_tmpl": ta}}},
-                {"op": "event", "loc": "a", "event": {"go": 1}}]
+        rule = {"when": {"pattern": {"go": "?g"}}, "condition": cond, "action": {"code": lochist.js_of_tmpl(ta), "verif_tmpl": ta}}
+        ops += [{"op": "addRule", "loc": "a", "id": "rpf", "rule": rule}, {"op": "event", "loc": "a", "event": {"go": 1}}]
         return {"kind": "loc", "state": r.choice(["indexed", "linear"]), "locs": ["a"], "ops": ops}
     pf = [partial_fail_case(rng) for _ in range(80 if not ck.thorough else 1500)]
     v0 = ck.violations
     lrc.run(pf, check_spec=False, nontrivial=lambda c: True)
     ck.cov["distribution"]["partial_failure_conditions"] = {"histories": len(pf), "violations": ck.violations - v0}
+    # a stored rule whose script does not compile (written as a fact that carries a rule: AddFact does not compile scripts; or left behind
+    # by an older version / a library that changed): the event that reaches it reports an error -- on the event or on the rule's node --
+    # it is never skipped as if it had run (stated on the real outputs)
+    ta = {"t": "lit", "v": 1}
+    good = {"when": {"pattern": {"go": "?g"}}, "action": {"code": lochist.js_of_tmpl(ta), "verif_tmpl": ta}}
+    bad = {"code": "this is not (javascript"}
+    bcs = []
+    for st in ("indexed", "linear"):
+        for where in ("condition", "action"):
+            rule = dict(good, **{where: bad})
+            bcs.append({"kind": "loc", "state": st, "locs": ["a"], "_where": where, "ops": [
+                {"op": "addRule", "loc": "a", "id": "good", "rule": good}, {"op": "addFact", "loc": "a", "id": "rpf", "fact": {"rule": rule}},
+                {"op": "event", "loc": "a", "event": {"go": 1}}, {"op": "event", "loc": "a", "event": {"go": 2}}]})
+    for c, o in zip(bcs, run_cases(drv, bcs)):
+        ck.count({"badscript": c["_where"], "s": c["state"]})
+        outs = (o or {}).get("outs") or []
+        if len(outs) != len(c["ops"]) or outs[1].get("err") is not None:
+            continue            # the fact was refused: nothing stored, nothing to report
+        for k in (2, 3):
+            t = outs[k]
+            node = next((x for x in (t.get("rules") or []) if x.get("id") == "rpf"), None)
+            reported = t.get("err") is not None or (node is not None and any(cn.get("err") for cn in node.get("conds") or [])) or \
+                (node is not None and any(not a.get("ok") for cn in node.get("conds") or [] for a in cn.get("acts") or []))
+            if not reported:
+                ck.violation("a stored rule whose %s script does not compile was reached by an event and nothing reports it: %s (%s state)" % (
+                    c["_where"], canon({kk: v for kk, v in t.items() if kk in ("err", "rules", "values")})[:300], c["state"]), {"case": {kk: v for kk, v in c.items() if kk != "_where"}, "impl": t}, tag="badscript")
+                break
 
     if proof_broken and ck.violations == 0:
         ck.violation("proof obligations of C14 no longer check: %s" % pr["failed"],
